@@ -7,6 +7,7 @@ CONSTANTS
   MainPosFix = TRUE
   CacheFaithful = TRUE
   LastBlockWins = TRUE
+  AppendInPlace = TRUE
   DupBodies = FALSE
   DupBlocks = FALSE
   DepOverlap = FALSE
